@@ -31,7 +31,8 @@ Verdict(t) ==
   LET c == t.c
       T == TLCEval(Table(c))
       ins == {x[1] : x \in T}
-      Exp(i) == (CHOOSE x \in T : x[1] = i)[2]
+      ExpF == TLCEval([i \in ins |-> (CHOOSE x \in T : x[1] = i)[2]])
+      Exp(i) == IF i \in ins THEN ExpF[i] ELSE -1
       obs == t.obs
       J == 1..Len(obs)
   IN  IF ~Pre(c) THEN "outside-preconditions"
